@@ -274,6 +274,10 @@ func genFWLife(w *bufio.Writer, thorough bool, r *Rng) {
 	for i := 0; i < dn; i++ {
 		// every (first, second) pair at least once
 		first, second := firsts[i%len(firsts)], seconds[i/len(firsts)%len(seconds)]
+		if i%3 == 0 { // a declared content size for the first frame, explicitly none for the second
+			first += fmt.Sprintf(",sz=%d", 1+r.Intn(100000))
+			second += ",sz=0"
+		}
 		conc := r.Pick([]int{1, 1, 2, 4})
 		fa := -1
 		if r.Intn(3) == 0 {
